@@ -428,6 +428,19 @@ def model_line(case):
     return " ".join(t)
 
 
+def model_read_line(case):
+    """What `rd` of ocaml/run_writer.ml must print for the file of `case`: every row group of the file, the
+    empty ones included (a zero-row call before new_row_group / close leaves one)."""
+    cols = ",".join(f"{c.name.encode().hex() or '-'}:{TYPE_TOK[c.ptype]}:{'O' if c.rep == 'OPTIONAL' else 'R'}:{c.type_length}"
+                    for c in case.schema.columns) or "-"
+    groups = fc.expected_table(case, keep_empty=True)
+
+    def row(r):
+        return "N" if r is None else (r.hex() or "x")
+    gs = "|".join("%d[%s]" % (len(g[0]) if g else 0, ";".join(".".join(row(r) for r in col) or "-" for col in g)) for g in groups) or "-"
+    return f"OK rows={sum(len(g[0]) if g else 0 for g in groups)} schema={cols} groups={gs}"
+
+
 def model_size(case):
     """Bytes of values in the history (the extracted model computes with inductive numbers: keep cases small)."""
     return sum(len(r) + 1 for op in case.ops if op.kind == "batch" for r in op.rows if r is not None) + 8 * len(case.ops)
@@ -505,6 +518,20 @@ def model_tie(rep, written, limit=4000):
             if sa != sb:
                 rep.tie_broken(f"page structure after decompression differs from the model's prediction "
                                f"({len(sa)} / {len(sb)} pages; codec {c.options.codec}; {c.name})", line)
-    rep.cov["model_tie"] = {"byte_exact_files": n_exact, "structure_after_decompression_files": n_struct}
+    # reader half: the extracted reader model (open, footer, chunks page after page) on the bytes of the REAL file
+    rsel = [(c, data) for c, st, data in sel if data is not None and st.close_ok() and c.options.codec in MODEL_CODECS
+            and len(data) < 6000 and fc.expected_table(c) is not None]
+    rout, rprobs = vlib.run_sharded(run, ["rd 1 " + (d.hex() or "-") for _, d in rsel])
+    for pr in rprobs:
+        rep.tie_broken(f"model runner died while reading (rc={pr[1]}): {pr[2][-300:]}", pr[3])
+    n_read = 0
+    for (c, data), o in zip(rsel, rout):
+        want = model_read_line(c)
+        n_read += 1
+        if o.strip() != want:
+            rep.tie_broken(f"the reader model does not read the implementation's file as the table written ({c.name}): "
+                           f"model {o[:160]} / expected {want[:160]}", model_line(c))
+    rep.cov["model_tie"] = {"byte_exact_files": n_exact, "structure_after_decompression_files": n_struct,
+                            "files_read_by_reader_model": n_read}
 
 
